@@ -11,14 +11,14 @@ LOOKUP_ASSUME = [
 ]
 
 
-def lookup(prop, quick_b1="MC_Lookup_quick.cfg", thorough_b1="MC_Lookup_thorough.cfg"):
+def lookup(prop, quick_b1="MC_Lookup_quick.cfg", thorough_b1="MC_Lookup_thorough.cfg", b1spec="MC_Lookup.tla"):
     return {
         "trace_spec": "Trace_Lookup.tla", "trace_cfg": "Trace_Lookup.cfg", "consts": dict(REAL, LayerM="TRUE"),
         "decides": [prop],
         "assumptions": LOOKUP_ASSUME,
-        "quick": {"b1": [("MC_Lookup.tla", quick_b1)], "b1_workers": 4, "b1_timeout": 600, "chunks": 12,
+        "quick": {"b1": [(b1spec, quick_b1)], "b1_workers": 4, "b1_timeout": 600, "chunks": 12,
                   "tlc_timeout": 900, "maxpar": 12},
-        "thorough": {"b1": [("MC_Lookup.tla", thorough_b1)], "b1_workers": 6, "b1_timeout": 3000, "chunks": 32,
+        "thorough": {"b1": [(b1spec, thorough_b1)], "b1_workers": 6, "b1_timeout": 3000, "chunks": 32,
                      "tlc_timeout": 3000, "maxpar": 10},
     }
 
@@ -41,6 +41,7 @@ CHECKS = {
     "C01": lookup("C01"),
     "C02": lookup("C02"),
     "C03": lookup("C03"),
+    "C08": lookup("C08", "MC_Build_quick.cfg", "MC_Build_thorough.cfg", "MC_Build.tla"),
     "C09": lookup("C09"),
     "C10": lookup("C10"),
     "C13": lookup("C13"),
